@@ -135,7 +135,9 @@ class CACGMM(_ProbabilisticModel):
 
         # first: sum above the speakers
         # second: sum above time frequency in log domain
-        log_likelihood = np.sum(scipy.special.logsumexp(log_pdf, axis=-2))
+        log_likelihood = np.sum(scipy.special.logsumexp(
+            log_pdf, b=np.broadcast_to(self.weight, log_pdf.shape), axis=-2
+        ))
         return log_likelihood
 
 
